@@ -233,6 +233,11 @@ class CompRunner:
         saved = {}
         comp = self.comp
         gattrs = {}
+        # every mutable attribute gets its original value back after the run, whatever its type (a cache that starts as
+        # None and is assigned an array in compute() must be None again for the next run)
+        for a in self.mutable:
+            if a in vars(comp):
+                saved[a] = vars(comp)[a]
         for a, v in list(vars(comp).items()):
             if a.startswith("_") and a not in self.mutable:
                 continue
@@ -324,7 +329,7 @@ class CompRunner:
     def _swap_sparse_only(self):
         """fresh-problem state: sparse constants lifted, mutable float work arrays become object arrays holding
         their current concrete values (so that symbolic values can be stored into them)"""
-        saved = {}
+        saved = {a: vars(self.comp)[a] for a in self.mutable if a in vars(self.comp)}
         for a, v in list(vars(self.comp).items()):
             if sp.issparse(v):
                 saved[a] = v
